@@ -15,7 +15,7 @@ def genesis_cfg(seed):
     # parameters every scenario fixes explicitly (DESIGN.md section 8)
     return {"seed": seed, "naccts": 6, "nvals": 3, "acctBalance": "1000000000000000000000000",
             "valStake": "1000000000000000000000", "baseFee": "1000000000", "minGasPrice": "0",
-            "maxGas": 40000000, "noBaseFee": False, "coinomics": True, "votingSecs": 20}
+            "maxGas": 40000000, "noBaseFee": False, "coinomics": True, "votingSecs": 20, "loopback": True}
 
 
 def c20_epilogue(steps, i):
